@@ -136,6 +136,59 @@ fn run_ends<R: arrow_buffer::ArrowNativeType + Ord>(st: &mut Stats, name: &str, 
     (ev, nt)
 }
 
+/// Dictionary constructors at the key type's limits: `DictionaryArray::try_new` and the `ArrayData` route
+/// for every key type x dictionary sizes around the key range x every key sequence of length <= 2 over
+/// {null, 0, -1, MIN, MAX, len-1, len}. Accept iff every non-null key is in [0, len).
+fn dictionaries(st: &mut Stats) -> (u64, u64) {
+    use arrow_array::types::*;
+    use arrow_array::{DictionaryArray, Int32Array, PrimitiveArray};
+    use arrow_data::ArrayData;
+    use arrow_schema::DataType;
+    use std::sync::Arc;
+    let (mut ev, mut nt) = (0u64, 0u64);
+    macro_rules! go {
+        ($t:ty, $name:expr, $sizes:expr) => {{
+            type N = <$t as ArrowPrimitiveType>::Native;
+            for &n in $sizes.iter() {
+                let values: ArrayRef = Arc::new(Int32Array::from((0..n as i32).collect::<Vec<_>>()));
+                let mut letters: Vec<Option<i128>> = vec![None, Some(0), Some(-1), Some(N::MIN as i128), Some(N::MAX as i128), Some(n as i128 - 1), Some(n as i128)];
+                letters.retain(|l| l.map_or(true, |v| v >= N::MIN as i128 && v <= N::MAX as i128));
+                letters.dedup();
+                let mut seqs: Vec<Vec<Option<i128>>> = vec![vec![]];
+                for a in &letters {
+                    seqs.push(vec![*a]);
+                    for b in &letters {
+                        seqs.push(vec![*a, *b]);
+                    }
+                }
+                for sq in seqs {
+                    let valid = sq.iter().all(|k| k.map_or(true, |v| v >= 0 && v < n as i128));
+                    let keys: PrimitiveArray<$t> = sq.iter().map(|k| k.map(|v| v as N)).collect();
+                    let r = catch(|| DictionaryArray::<$t>::try_new(keys.clone(), values.clone()));
+                    ev += 1;
+                    nt += !valid as u64;
+                    decide(st, &format!("DictionaryArray<{}>::try_new", $name), valid, matches!(r, Ok(Ok(_))), || format!("{n} values, keys {sq:?}"));
+                    let dt = DataType::Dictionary(Box::new(<$t>::DATA_TYPE), Box::new(DataType::Int32));
+                    let kd = keys.to_data();
+                    let r = catch(|| ArrayData::try_new(dt.clone(), sq.len(), kd.nulls().map(|n| n.buffer().clone()), 0, kd.buffers().to_vec(), vec![values.to_data()]));
+                    ev += 1;
+                    nt += !valid as u64;
+                    decide(st, &format!("ArrayData::try_new(Dictionary<{}>)", $name), valid, matches!(r, Ok(Ok(_))), || format!("{n} values, keys {sq:?}"));
+                }
+            }
+        }};
+    }
+    go!(Int8Type, "Int8", [0usize, 1, 127, 128, 129, 200, 256]);
+    go!(UInt8Type, "UInt8", [0usize, 1, 127, 128, 255, 256, 257]);
+    go!(Int16Type, "Int16", [1usize, 32767, 32768, 32769]);
+    go!(UInt16Type, "UInt16", [1usize, 65535, 65536, 65537]);
+    go!(Int32Type, "Int32", [0usize, 1, 3]);
+    go!(Int64Type, "Int64", [0usize, 1, 3]);
+    go!(UInt32Type, "UInt32", [1usize, 3]);
+    go!(UInt64Type, "UInt64", [1usize, 3]);
+    (ev, nt)
+}
+
 pub fn run(ctx: &Ctx, st: &mut Stats) {
     let (mut ev, mut nt) = (0u64, 0u64);
     let big = [usize::MAX, usize::MAX - 7, usize::MAX / 8, usize::MAX / 8 + 1];
@@ -219,5 +272,8 @@ pub fn run(ctx: &Ctx, st: &mut Stats) {
             }
         }
     }
+    let (e, n) = dictionaries(st);
+    ev += e;
+    nt += n;
     st.add("prims", ev, nt);
 }
